@@ -31,6 +31,7 @@ from placement.handlers import allocation
 from placement.handlers import inventory
 from placement.handlers import util as data_util
 from placement import microversion
+from placement.objects import consumer as consumer_obj
 from placement.objects import reshaper
 from placement.objects import resource_provider as rp_obj
 from placement.policies import reshaper as policies
@@ -116,6 +117,11 @@ def reshape(req):
         data_util.update_consumers(consumers.values(), requested_attrs)
 
         reshaper.reshape(ctx, inventory_by_rp, allocation_objects)
+        # Consumers created by this request whose allocations are empty hold
+        # nothing: do not keep a record of them.
+        consumer_obj.delete_consumers_if_no_allocations(
+            ctx, [consumer.uuid for consumer in new_consumers_created
+                  if not allocations[consumer.uuid]['allocations']])
 
     def _create_allocations():
         try:
